@@ -83,6 +83,18 @@ func runC07(p *Prog, r *Report, tier string) {
 			cv, isC := st.Val.(*ssa.Const)
 			construct := fmt.Sprintf("%s: store #%d to ReadyToSend", fnKey(f), idx)
 			if !isC || cv.Value == nil {
+				// the one computed value that says the same as the branch: a NEW record gets !correlationRequired
+				if u, isU := st.Val.(*ssa.UnOp); isU && u.Op == token.NOT && f == add && icr != nil {
+					if c, isCall := u.X.(*ssa.Call); isCall && c.Call.StaticCallee() == icr {
+						if _, _, base, _ := fieldOf(st.Addr); base != nil {
+							if _, fresh := base.(*ssa.Alloc); fresh {
+								nT++
+								r.OK("R-OWNER.ready", construct, p.instrPos(in), "creation: ReadyToSend = !isCorrelationRequired(...)", true)
+								return
+							}
+						}
+					}
+				}
 				r.Violation("R-OWNER.ready", construct, p.instrPos(in), "ReadyToSend is assigned a computed value; only the two audited constant-true stores are allowed")
 				return
 			}
@@ -219,7 +231,8 @@ func runC07(p *Prog, r *Report, tier string) {
 			cmp := false
 			if i := ifOf(in.Block()); i != nil {
 				for _, cf := range cmpForms(i.Cond) {
-					if cf.Op != token.GTR || !isCounter(cf.X) {
+					// the counter re-read from the field, or the very value that was just stored into it (a named local)
+					if cf.Op != token.GTR || !(isCounter(cf.X) || cf.X == st.Val) {
 						continue
 					}
 					g, ok := cf.Y.(*ssa.UnOp)
@@ -316,38 +329,59 @@ func checkCorrelateGuards(p *Prog, r *Report) {
 		return
 	}
 	n := 0
-	eachInstr(f, func(in ssa.Instruction) {
-		c, ok := in.(*ssa.Call)
-		if !ok || !c.Call.IsInvoke() || !strings.HasPrefix(c.Call.Method.Name(), "Set") || !isValueAccessor(c.Call.Method.Name()) {
-			return
-		}
-		n++
-		val := c.Call.Args[0]
-		neq, bad := false, ""
-		for _, fct := range blockFacts(in.Block()) {
-			x, op, y := fct.X, fct.Op, fct.Y
-			if y == val {
-				x, y, op = y, x, flipOp(op)
-			}
-			switch op {
-			case token.NEQ:
-				neq = true
-			case token.GTR, token.GEQ, token.LSS, token.LEQ:
-				if x != val {
-					continue
+	var visit func(fn *ssa.Function, outerFacts []relFact, bind map[ssa.Value]ssa.Value)
+	visit = func(fn *ssa.Function, outerFacts []relFact, bind map[ssa.Value]ssa.Value) {
+		eachInstr(fn, func(in ssa.Instruction) {
+			// a setter bound in a function literal of the case ("decide emptiness, bind the copy, run it below"): the facts
+			// of the place where the literal is made hold when it runs, its free variables are the values bound there
+			if mc, isMC := in.(*ssa.MakeClosure); isMC {
+				if af, ok := mc.Fn.(*ssa.Function); ok && af.Parent() == fn {
+					b2 := map[ssa.Value]ssa.Value{}
+					for i, fv := range af.FreeVars {
+						if i < len(mc.Bindings) {
+							b2[fv] = mc.Bindings[i]
+						}
+					}
+					visit(af, append(append([]relFact{}, outerFacts...), blockFacts(in.Block())...), b2)
 				}
-				b, isB := val.Type().Underlying().(*types.Basic)
-				z, isZ := constInt(y)
-				if isB && b.Info()&types.IsUnsigned != 0 && op == token.GTR && isZ && z == 0 {
-					neq = true // val > 0 on an unsigned value is val != 0
-					continue
-				}
-				bad = fmt.Sprintf("%s %s %s", val.Name(), op, y.Name())
+				return
 			}
-		}
-		r.Check(neq && bad == "", "R-SIBLING.correlate", fmt.Sprintf("pkg/intermediate.correlateRecords: %s guarded by a non-empty test", c.Call.Method.Name()), p.instrPos(in),
-			"copied iff the incoming value differs from the zero value", "the copy is guarded by an ordering test ("+bad+") or by no inequality at all: some non-empty values (e.g. negative ones) are treated as empty and the merged record is exported without them", true)
-	})
+			c, ok := in.(*ssa.Call)
+			if !ok || !c.Call.IsInvoke() || !strings.HasPrefix(c.Call.Method.Name(), "Set") || !isValueAccessor(c.Call.Method.Name()) {
+				return
+			}
+			n++
+			val := c.Call.Args[0]
+			if bv, ok := bind[val]; ok {
+				val = bv
+			}
+			neq, bad := false, ""
+			for _, fct := range append(append([]relFact{}, outerFacts...), blockFacts(in.Block())...) {
+				x, op, y := fct.X, fct.Op, fct.Y
+				if y == val {
+					x, y, op = y, x, flipOp(op)
+				}
+				switch op {
+				case token.NEQ:
+					neq = true
+				case token.GTR, token.GEQ, token.LSS, token.LEQ:
+					if x != val {
+						continue
+					}
+					b, isB := val.Type().Underlying().(*types.Basic)
+					z, isZ := constInt(y)
+					if isB && b.Info()&types.IsUnsigned != 0 && op == token.GTR && isZ && z == 0 {
+						neq = true // val > 0 on an unsigned value is val != 0
+						continue
+					}
+					bad = fmt.Sprintf("%s %s %s", val.Name(), op, y.Name())
+				}
+			}
+			r.Check(neq && bad == "", "R-SIBLING.correlate", fmt.Sprintf("pkg/intermediate.correlateRecords: %s guarded by a non-empty test", c.Call.Method.Name()), p.instrPos(in),
+				"copied iff the incoming value differs from the zero value", "the copy is guarded by an ordering test ("+bad+") or by no inequality at all: some non-empty values (e.g. negative ones) are treated as empty and the merged record is exported without them", true)
+		})
+	}
+	visit(f, nil, nil)
 	if n < 4 {
 		r.Undecided("R-SIBLING.correlate", "anchor: setter calls in correlateRecords", p.pos(f.Pos()), fmt.Sprintf("only %d found", n))
 	}
@@ -574,6 +608,30 @@ func checkReadyAtOnce(p *Prog, r *Report, rule string) {
 		return ok && tn+"."+fn == "pkg/intermediate.AggregationProcess.flowKeyRecordMap"
 	}
 	n := 0
+	// the record may be created with ReadyToSend: !correlationRequired in one go
+	eachInstr(add, func(x ssa.Instruction) {
+		st, ok := x.(*ssa.Store)
+		if !ok || !isRTS(st.Addr) {
+			return
+		}
+		_, _, base, _ := fieldOf(st.Addr)
+		u, isU := st.Val.(*ssa.UnOp)
+		if base != ssa.Value(fresh) || !isU || u.Op != token.NOT {
+			return
+		}
+		if c, isCall := u.X.(*ssa.Call); isCall && c.Call.StaticCallee() == icr {
+			// no way from the creation of the record to a map insertion that misses this store
+			q := &pathQuery{noExit: true, terminal: isIns, discharge: func(y ssa.Instruction) bool { return y == x }}
+			_, bad := q.find(fresh)
+			if !bad {
+				n++
+				r.OK(rule, fnKey(add)+": new flow without correlation is ready at once", p.instrPos(x), "the new record is created with ReadyToSend = !correlationRequired before the insertion", true)
+			}
+		}
+	})
+	if n > 0 {
+		return // decided for every path at once: no branch needed
+	}
 	for _, b := range add.Blocks {
 		i := ifOf(b)
 		if i == nil || !fresh.Block().Dominates(b) {
@@ -641,7 +699,43 @@ func checkSingleSuccessExit(p *Prog, r *Report, rule string) {
 			return
 		}
 		n++
-		r.Check(dominates(ins, x), rule, fmt.Sprintf("%s: success return #%d", fnKey(add), n), p.instrPos(x), "after the map insertion",
+		// every way to this return passes the insertion - or the "flow already held" edge of the map lookup, on which the
+		// record is the very object the map points to and is updated in place (re-storing the pointer is a no-op)
+		okRet := dominates(ins, x)
+		if !okRet {
+			q := &pathQuery{noExit: true,
+				discharge: func(in ssa.Instruction) bool { return in == ins },
+				terminal:  func(in ssa.Instruction) bool { return in == x },
+				prune: func(from *ssa.BasicBlock, si int) bool {
+					i := ifOf(from)
+					if i == nil {
+						return false
+					}
+					c, okSucc := i.Cond, 0
+					for {
+						u, isU := c.(*ssa.UnOp)
+						if !isU || u.Op != token.NOT {
+							break
+						}
+						c, okSucc = u.X, 1-okSucc
+					}
+					ex, isEx := c.(*ssa.Extract)
+					if !isEx || ex.Index != 1 {
+						return false
+					}
+					lk, isLk := ex.Tuple.(*ssa.Lookup)
+					if !isLk || !lk.CommaOk {
+						return false
+					}
+					if tn, fn, _, ok := loadedField(lk.X); !ok || tn+"."+fn != "pkg/intermediate.AggregationProcess.flowKeyRecordMap" {
+						return false
+					}
+					return si == okSucc
+				}}
+			_, bad := q.findFromBlock(add.Blocks[0])
+			okRet = !bad
+		}
+		r.Check(okRet, rule, fmt.Sprintf("%s: success return #%d", fnKey(add), n), p.instrPos(x), "after the map insertion",
 			"the function reports success without having stored the (updated) flow record: the incoming record is silently discarded on this path", true)
 	})
 	if n == 0 {
